@@ -14,6 +14,8 @@ type Topo struct {
 	Kind      string `json:"kind"` // direct | demux | proxy
 	Serialize bool   `json:"ser"`  // serialising transport (marshal/unmarshal) vs by-reference hand-over
 	Clients   int    `json:"clients"`
+	// Raw: do not attach goat ClientConns; the test drives end A of each link by hand (scripted caller).
+	Raw bool `json:"raw,omitempty"`
 }
 
 func (t Topo) String() string {
@@ -139,8 +141,10 @@ func NewWorld(topo Topo, svc *Svc, sopts []goat.ServerOption, dopts []goat.DialO
 		panic("unknown topology " + topo.Kind)
 	}
 
-	for i, l := range w.Links {
-		w.CC = append(w.CC, goat.NewClientConn(l.A, ClientName(i), ServerName, dopts...))
+	if !topo.Raw {
+		for i, l := range w.Links {
+			w.CC = append(w.CC, goat.NewClientConn(l.A, ClientName(i), ServerName, dopts...))
+		}
 	}
 	return w
 }
